@@ -365,11 +365,14 @@ pub fn rvalue(r: &mut Rng, ty: &str) -> String {
         "peg" => r.pick(&["BB", "BA", "MP", "LT"]).to_string(),
         "tx" => show_txrec(&rtx(r)),
         "txlist" => {
-            let n = r.below(4);
+            // list lengths: 0-3 mostly; one in 150 is long (a sweep of a deep level prints over a thousand)
+            let n = if r.chance(1, 150) { r.range(1020, 1100) } else { r.below(4) };
             let v: Vec<Transaction> = (0..n).map(|_| rtx(r)).collect();
             show_list(&v, show_txrec)
         }
         "mr" => {
+            // (long lists live in `txlist`, which this parser delegates to: the model's bracket scanner indexes a
+            // linked list and would take minutes on a 200 kB match result)
             let n = r.below(3);
             let v: Vec<Transaction> = (0..n).map(|_| rtx(r)).collect();
             let m = r.below(3);
@@ -379,8 +382,8 @@ pub fn rvalue(r: &mut Rng, ty: &str) -> String {
         "stats" => (0..8).map(|_| num(r).to_string()).collect::<Vec<_>>().join(","),
         "snap" => (0..4).map(|_| num(r).to_string()).collect::<Vec<_>>().join(","),
         "queue" | "level" => {
-            // distinct ids and distinct timestamps, sums that fit
-            let n = r.below(4);
+            // distinct ids and distinct timestamps, sums that fit; one queue value in 150 is long
+            let n = if ty == "queue" && r.chance(1, 150) { r.range(1020, 1100) } else { r.below(4) };
             let mut v = Vec::new();
             for i in 0..n {
                 let tsv = 10 + i * 3 + r.below(3);
@@ -474,6 +477,13 @@ pub fn canon_value(ty: &str, v: &str) -> String {
 pub fn gen_codec(seed: u64, n_valid: u64, n_bad: u64, out: &crate::gens::Sink) {
     let mut r = Rng::new(seed ^ 0x434f_4443);
     let mut case = 0u64;
+    // every run holds two long lists (a sweep of a deep level prints over a thousand transactions)
+    for (ty, n) in [("txlist", 1025u64), ("txlist", 1500)] {
+        let v: Vec<Transaction> = (0..n).map(|_| rtx(&mut r)).collect();
+        out.push(format!("case {case}"));
+        case += 1;
+        out.push(format!("txt.rt {ty} {}", show_list(&v, show_txrec)));
+    }
     for ty in TYPES {
         for _ in 0..n_valid {
             let v = rvalue(&mut r, ty);
